@@ -102,6 +102,15 @@ def frames(table: Dict[str, List[Any]], schema: Dict[str, str], kind: str):
 _SQL_TYPE = {"int64": "INTEGER", "float64": "REAL", "bool": "INTEGER"}
 
 
+def _sql_type(col) -> str:
+    """Column affinity pandas.to_sql declares for this column (object columns: by inferred content)."""
+    t = _SQL_TYPE.get(str(col.dtype))
+    if t is None:
+        inf = pandas.api.types.infer_dtype(col, skipna=True)
+        t = {"boolean": "INTEGER", "integer": "INTEGER", "floating": "REAL"}.get(inf, "TEXT")
+    return t
+
+
 def _sql_cell(v):
     v = C.canon_value(v)
     if isinstance(v, bool):
@@ -133,7 +142,7 @@ class SqliteSession:
     def load(self, name: str, frame: pandas.DataFrame) -> None:
         conn = self.handle.conn
         cols = list(frame.columns)
-        decl = ", ".join('"%s" %s' % (c, _SQL_TYPE.get(str(frame[c].dtype), "TEXT")) for c in cols)
+        decl = ", ".join('"%s" %s' % (c, _sql_type(frame[c])) for c in cols)
         conn.execute('DROP TABLE IF EXISTS "%s"' % name)
         conn.execute('CREATE TABLE "%s" (%s)' % (name, decl))
         data = [frame.iloc[:, j].tolist() for j in range(len(cols))]
@@ -687,3 +696,294 @@ class ContractedBackends:
                 return {"obs": out, "ok": None, "why": "%s: %s" % (out[1], out[2])}
             raise wrap.HarnessError("the contract on %s was not evaluated" % self.name(be, getattr(ops, "node_name", "ExtendNode") if be != "sqlite" else "ExtendNode"))
         return {"obs": st["obs"], "ok": st["verdict"][0], "why": st["verdict"][1]}
+
+
+# --------------------------------------------------------------------------------------------------
+# documented meaning of every catalogued method (C05)
+# --------------------------------------------------------------------------------------------------
+# Sources (never the implementations):
+#   * docstrings of Term.* in data_algebra/expr_rep.py, and the section comments there which point to the
+#     definitions the method families follow: "math functions / more numpy stuff" -> numpy routines.math
+#     (missing in -> missing out), "pandas style definitions" -> pandas GroupBy reference (aggregates skip
+#     missing items), "emulating numeric types" -> Python operators;
+#   * the `expression` column of op_catalog.methods_table (operand types, literal arguments);
+#   * the comment on mod/remainder in sql_model.py: "use destination semantics" for signs.
+# Where these leave a value open, the method's DOMAIN is restricted (`dom`) and the restriction recorded (`note`).
+
+import datetime as _dt
+
+NUM_GRID = [None, 0.0, -1.0, 1.0, 2.5, -0.0, 1e6]
+NUMX_GRID = NUM_GRID + [float("inf"), float("-inf")]  # is_inf / is_bad / is_nan only
+INT_GRID = [None, 0, -1, 1, 1000000]
+BOOL_GRID = [None, True, False]
+STR_GRID = [None, "a", "", "abc"]
+DATE_GRID = [None, _dt.date(2020, 2, 29), _dt.date(2021, 1, 3), _dt.date(1999, 12, 31)]  # 2021-01-03 is a Sunday
+DATETIME_GRID = [None, _dt.datetime(2020, 2, 29, 23, 59, 58), _dt.datetime(2021, 1, 3, 0, 0, 0)]
+STRDATE_GRID = [None, "2020-02-29", "1999-12-31"]
+STRDATETIME_GRID = [None, "2020-02-29 23:59:58", "1999-12-31 00:00:00"]
+GRIDS = {"num": NUM_GRID, "numx": NUMX_GRID, "int": INT_GRID, "bool": BOOL_GRID, "str": STR_GRID, "date": DATE_GRID, "datetime": DATETIME_GRID, "strdate": STRDATE_GRID, "strdatetime": STRDATETIME_GRID}
+#: value domains of the groups (<= 3 rows incl. nulls) used for aggregators and window functions
+GROUP_GRIDS = {"num": [None, -1.0, 1.0, 2.5], "bool": [None, True, False]}
+
+
+class Method:
+    """One catalogued method use.
+    cls/catalog_expr  op_class and expression of the catalog row this entry covers
+    expr              the expression evaluated (operand columns a0, a1, a2; aggregates / windows: value column v)
+    args              operand types (scalar methods) / [value type] or [] (aggregates, windows)
+    ref               scalar: ref(*operands) -> value; aggregate (p, up): ref(values of the group) -> value;
+                      window (g, w, and the whole-column `e` sum): ref(values in window order) -> list of values
+    dom               restriction of the operand values (scalar) / of the group's values; None = everything
+    note              why the domain is restricted (goes to rep.extra['domain_restrictions'])
+    skip              reason why nothing can be compared at all (documentation pins no value)"""
+
+    def __init__(self, cls, catalog_expr, expr, args, ref, dom=None, note=None, skip=None):
+        self.cls, self.catalog_expr, self.expr, self.args, self.ref, self.dom, self.note, self.skip = cls, catalog_expr, expr, list(args), ref, dom, note, skip
+
+    @property
+    def key(self) -> str:
+        return "%s|%s" % (self.cls, self.catalog_expr)
+
+
+def _all_nn(*a):
+    return all(v is not None for v in a)
+
+
+def _prop(f):
+    """numpy style: a missing operand gives a missing result."""
+
+    def g(*a):
+        if any(v is None for v in a):
+            return None
+        return f(*a)
+
+    return g
+
+
+def _finite(f, *a):
+    try:
+        v = f(*a)
+    except (OverflowError, ValueError, ZeroDivisionError):
+        return False
+    return isinstance(v, (int, float)) and not isinstance(v, complex) and v == v and abs(v) < 1e300
+
+
+NN = "null operands: behaviour not documented"
+NOTE_MOD = "negative operands / zero divisor: sql_model.py documents 'destination semantics'"
+
+
+def _sign(a):
+    return 0 if a == 0 else (1 if a > 0 else -1)
+
+
+def _pow_dom(a, b):
+    if not _all_nn(a, b):
+        return False
+    if a > 0 or (a == 0 and b > 0) or (a < 0 and float(b).is_integer()):
+        return _finite(math.pow, a, b)
+    return False
+
+
+def _fmax(a, b, f):
+    if a is None:
+        return b
+    if b is None:
+        return a
+    return f(a, b)
+
+
+def _prior_sunday(d):
+    return d - _dt.timedelta(days=(d.weekday() + 1) % 7)
+
+
+def _scalar_methods() -> List[Method]:
+    E = []
+
+    def add(cat, expr, args, ref, dom=None, note=None, skip=None):
+        E.append(Method("e", cat, expr, args, ref, dom, note, skip))
+
+    nn2 = lambda a, b: _all_nn(a, b)  # noqa: E731
+    nn1 = lambda a: a is not None  # noqa: E731
+    add("x != y", "a0 != a1", ["num", "num"], lambda a, b: a != b, nn2, NN)
+    add("row_id % q", "a0 % a1", ["int", "int"], lambda a, b: a % b, lambda a, b: _all_nn(a, b) and a >= 0 and b > 0, NOTE_MOD + "; " + NN)
+    add("x %/% y", "a0 %/% a1", ["num", "num"], lambda a, b: a / b, lambda a, b: _all_nn(a, b) and b != 0, "division by zero and " + NN)
+    add("x * y", "a0 * a1", ["num", "num"], lambda a, b: a * b, nn2, NN)
+    add("x ** y", "a0 ** a1", ["num", "num"], lambda a, b: math.pow(a, b), _pow_dom, "only real, finite powers (positive base, 0 ** positive, negative base with integer exponent); " + NN)
+    add("x + y", "a0 + a1", ["num", "num"], lambda a, b: a + b, nn2, NN)
+    add("-x", "-a0", ["num"], lambda a: -a, nn1, NN)
+    add("x - y", "a0 - a1", ["num", "num"], lambda a, b: a - b, nn2, NN)
+    add("x / y", "a0 / a1", ["num", "num"], lambda a, b: a / b, lambda a, b: _all_nn(a, b) and b != 0, "division by zero and " + NN)
+    add("row_id // q", "a0 // a1", ["int", "int"], lambda a, b: a // b, lambda a, b: _all_nn(a, b) and a >= 0 and b > 0, "negative operands / zero divisor not documented; " + NN)
+    add("x < y", "a0 < a1", ["num", "num"], lambda a, b: a < b, nn2, NN)
+    add("x <= y", "a0 <= a1", ["num", "num"], lambda a, b: a <= b, nn2, NN)
+    add("not a", "not a0", ["bool"], lambda a: not a, nn1, NN)
+    add("x == y", "a0 == a1", ["num", "num"], lambda a, b: a == b, nn2, NN)
+    add("x > y", "a0 > a1", ["num", "num"], lambda a, b: a > b, nn2, NN)
+    add("x >= y", "a0 >= a1", ["num", "num"], lambda a, b: a >= b, nn2, NN)
+    add("z.abs()", "a0.abs()", ["num"], _prop(abs))
+    add("a and b", "a0 and a1", ["bool", "bool"], lambda a, b: a and b, nn2, NN)
+    add("x.arccos()", "a0.arccos()", ["num"], _prop(math.acos), lambda a: a is None or -1 <= a <= 1, "outside [-1, 1] undefined")
+    add("x.arccosh()", "a0.arccosh()", ["num"], _prop(math.acosh), lambda a: a is None or a >= 1, "below 1 undefined")
+    add("x.arcsin()", "a0.arcsin()", ["num"], _prop(math.asin), lambda a: a is None or -1 <= a <= 1, "outside [-1, 1] undefined")
+    add("x.arcsinh()", "a0.arcsinh()", ["num"], _prop(math.asinh))
+    add("x.arctan()", "a0.arctan()", ["num"], _prop(math.atan))
+    add("x.arctan2(y)", "a0.arctan2(a1)", ["num", "num"], _prop(math.atan2))
+    add("x.arctanh()", "a0.arctanh()", ["num"], _prop(math.atanh), lambda a: a is None or -1 < a < 1, "outside (-1, 1) undefined")
+    add("y.around(2)", "a0.around(2)", ["num"], _prop(lambda a: round(a, 2)))
+    add("y.as_int64()", "a0.as_int64()", ["num"], lambda a: int(a), lambda a: a is not None and float(a).is_integer(), "'Cast as int': rounding of non-integral values and the cast of missing values are not documented")
+    add("y.as_str()", "a0.as_str()", ["str"], lambda a: a, nn1, "'Cast as string': the text form of numbers and of missing values is not documented; only strings")
+    add("date_col_1.base_Sunday()", "a0.base_Sunday()", ["date"], _prior_sunday, nn1, NN)
+    add("y.ceil()", "a0.ceil()", ["num"], _prop(lambda a: float(math.ceil(a))))
+    add("z.ceil()", "a0.ceil()", ["num"], _prop(lambda a: float(math.ceil(a))))
+    add("z %?% 2", "a0 %?% 2", ["num"], lambda a: 2 if a is None else a)
+    add("z.coalesce(2)", "a0.coalesce(2)", ["num"], lambda a: 2 if a is None else a)
+    add("z.coalesce_0()", "a0.coalesce_0()", ["num"], lambda a: 0 if a is None else a)
+    add('g %+% "_" %+% s2', 'a0 %+% "_" %+% a1', ["str", "str"], lambda a, b: a + "_" + b, nn2, NN)
+    add("g.concat(s2)", "a0.concat(a1)", ["str", "str"], lambda a, b: a + b, nn2, NN)
+    big = lambda a: a is None or abs(a) <= 700  # noqa: E731
+    add("x.cos()", "a0.cos()", ["num"], _prop(math.cos))
+    add("x.cosh()", "a0.cosh()", ["num"], _prop(math.cosh), big, "results beyond the float range")
+    add("date_col_0.date_diff(date_col_1)", "a0.date_diff(a1)", ["date", "date"], lambda a, b: Either((a - b).days, (b - a).days), nn2, "sign of the difference not documented; " + NN)
+    add("datetime_col_0.datetime_to_date()", "a0.datetime_to_date()", ["datetime"], lambda a: a.date(), nn1, NN)
+    add("date_col_0.dayofmonth()", "a0.dayofmonth()", ["date"], lambda a: a.day, nn1, NN)
+    add("date_col_0.dayofweek()", "a0.dayofweek()", ["date"], None, skip="'Convert date to date of week': the numbering of the week days is not documented")
+    add("date_col_0.dayofyear()", "a0.dayofyear()", ["date"], lambda a: a.timetuple().tm_yday, nn1, NN)
+    add("x.exp()", "a0.exp()", ["num"], _prop(math.exp), big, "results beyond the float range")
+    add("y.expm1()", "a0.expm1()", ["num"], _prop(math.expm1), big, "results beyond the float range")
+    add("y.floor()", "a0.floor()", ["num"], _prop(lambda a: float(math.floor(a))))
+    add("z.floor()", "a0.floor()", ["num"], _prop(lambda a: float(math.floor(a))))
+    add("row_id.fmax(x)", "a0.fmax(a1)", ["num", "num"], lambda a, b: _fmax(a, b, max))
+    add("row_id.fmin(x)", "a0.fmin(a1)", ["num", "num"], lambda a, b: _fmax(a, b, min))
+    add("date_col_0.format_date()", "a0.format_date()", ["date"], lambda a: a.strftime("%Y-%m-%d"), nn1, NN)
+    add("datetime_col_0.format_datetime()", "a0.format_datetime()", ["datetime"], lambda a: a.strftime("%Y-%m-%d %H:%M:%S"), nn1, NN)
+    add("a.if_else(x, y)", "a0.if_else(a1, a2)", ["bool", "num", "num"], lambda c, a, b: None if c is None else (a if c else b))
+    add("z.is_bad()", "a0.is_bad()", ["numx"], lambda a: a is None or math.isinf(a) or a != a)
+    add("row_id.is_in({1, 3})", "a0.is_in({1, 3})", ["int"], lambda a: a in (1, 3), nn1, NN)
+    add("y.is_inf()", "a0.is_inf()", ["numx"], lambda a: math.isinf(a), nn1, NN)
+    add("y.is_nan()", "a0.is_nan()", ["numx"], lambda a: a != a, nn1, "Pandas does not distinguish missing from NaN: only non-missing items")
+    add("z.is_null()", "a0.is_null()", ["num"], lambda a: a is None)
+    add("x.log()", "a0.log()", ["num"], _prop(math.log), lambda a: a is None or a > 0, "non-positive arguments undefined")
+    add("x.log10()", "a0.log10()", ["num"], _prop(math.log10), lambda a: a is None or a > 0, "non-positive arguments undefined")
+    add("x.log1p()", "a0.log1p()", ["num"], _prop(math.log1p), lambda a: a is None or a > -1, "arguments <= -1 undefined")
+    add('g.mapv({"a": 1, "b": 2, "z": 26}, 0)', 'a0.mapv({"a": 1, "b": 2, "z": 26}, 0)', ["str"], lambda a: {"a": 1, "b": 2, "z": 26}.get(a, 0), nn1, NN)
+    add("row_id.maximum(x)", "a0.maximum(a1)", ["num", "num"], _prop(max))
+    add("row_id.minimum(x)", "a0.minimum(a1)", ["num", "num"], _prop(min))
+    add("row_id.mod(2)", "a0.mod(2)", ["int"], lambda a: a % 2, lambda a: a is not None and a >= 0, NOTE_MOD + "; " + NN)
+    add("date_col_0.month()", "a0.month()", ["date"], lambda a: a.month, nn1, NN)
+    add("a or b", "a0 or a1", ["bool", "bool"], lambda a, b: a or b, nn2, NN)
+    add("str_date_col.parse_date()", "a0.parse_date()", ["strdate"], lambda a: _dt.datetime.strptime(a, "%Y-%m-%d").date(), nn1, NN)
+    add("str_datetime_col.parse_datetime()", "a0.parse_datetime()", ["strdatetime"], lambda a: _dt.datetime.strptime(a, "%Y-%m-%d %H:%M:%S"), nn1, NN)
+    add("date_col_0.quarter()", "a0.quarter()", ["date"], lambda a: (a.month - 1) // 3 + 1, nn1, NN)
+    add("row_id.remainder(2)", "a0.remainder(2)", ["int"], lambda a: a % 2, lambda a: a is not None and a >= 0, NOTE_MOD + "; " + NN)
+    add("y.round()", "a0.round()", ["num"], _prop(lambda a: float(round(a))), lambda a: a is None or abs(a - math.floor(a) - 0.5) > 1e-9, "'nearest integer, subject to some rules': exact halves")
+    add("z.sign()", "a0.sign()", ["num"], _prop(_sign))
+    add("x.sin()", "a0.sin()", ["num"], _prop(math.sin))
+    add("x.sinh()", "a0.sinh()", ["num"], _prop(math.sinh), big, "results beyond the float range")
+    add("x.sqrt()", "a0.sqrt()", ["num"], _prop(math.sqrt), lambda a: a is None or a >= 0, "negative arguments undefined")
+    add("x.tanh()", "a0.tanh()", ["num"], _prop(math.tanh))
+    add("datetime_col_0.timestamp_diff(datetime_col_1)", "a0.timestamp_diff(a1)", ["datetime", "datetime"], lambda a, b: Either((a - b).total_seconds(), (b - a).total_seconds()), nn2, "sign of the difference not documented; " + NN)
+    add("g.trimstr(0, 2)", "a0.trimstr(0, 2)", ["str"], lambda a: a[0:2], nn1, NN)
+    add("date_col_0.weekofyear()", "a0.weekofyear()", ["date"], None, skip="'Convert date to week of year': the week numbering scheme is not documented")
+    add("a.where(x, y)", "a0.where(a1, a2)", ["bool", "num", "num"], lambda c, a, b: a if c is True else b)
+    add("date_col_0.year()", "a0.year()", ["date"], lambda a: a.year, nn1, NN)
+    return E
+
+
+def _median(nn):
+    s = sorted(nn)
+    n = len(s)
+    return None if n == 0 else (s[n // 2] if n % 2 else (s[n // 2 - 1] + s[n // 2]) / 2.0)
+
+
+def _var(nn):
+    n = len(nn)
+    if n < 2:
+        return None
+    m = sum(nn) / float(n)
+    return sum((v - m) ** 2 for v in nn) / float(n - 1)
+
+
+def _agg_ref(name):
+    """Aggregate meanings ('pandas style definitions': missing items are skipped; count = non-NA cells; size = items)."""
+
+    def f(vals):
+        nn = [v for v in vals if v is not None]
+        if name in ("sum", "mean", "min", "max", "count", "size", "_size"):
+            return ref_group_agg(name, vals)
+        if name == "median":
+            return _median(nn)
+        if name == "nunique":
+            return len(set(nn))
+        if name == "var":
+            return _var(nn)
+        if name == "std":
+            v = _var(nn)
+            return None if v is None else math.sqrt(v)
+        if name == "all":
+            return all(nn)
+        if name == "any":
+            return any(nn)
+        if name == "any_value":
+            return Either(*vals)
+        if name == "one_sum":
+            return len(vals)
+        raise ValueError(name)
+
+    return f
+
+
+def _const(f):
+    """group aggregate used as a window function: the same value on every row of the partition."""
+    return lambda vals: [f(vals)] * len(vals)
+
+
+def _win(fn, extra=None):
+    return lambda vals: ref_window_fn(fn, vals, extra)
+
+
+NOTE_NONNULL_GROUP = "missing items: documented meaning undetermined (numpy propagates, pandas skips, SQL keeps the running value); only groups without missing items"
+
+
+def _group_methods() -> List[Method]:
+    M = []
+    nonnull = lambda vals: all(v is not None for v in vals)  # noqa: E731
+    for cls, wrap_ in (("g", _const), ("p", lambda f: f)):
+        if cls == "g":
+            M.append(Method("g", "_count()", "_count()", [], None, skip="_count() has no documentation (not a Term method, no docstring)"))
+            M.append(Method("g", "_ngroup()", "_ngroup()", [], None, skip="_ngroup() has no documentation (not a Term method, no docstring)"))
+        M.append(Method(cls, "_size()", "_size()", [], wrap_(_agg_ref("_size"))))
+        if cls == "p":
+            M.append(Method("p", "a.all()", "v.all()", ["bool"], _agg_ref("all"), nonnull, "missing items in all()/any() not documented"))
+            M.append(Method("p", "a.any()", "v.any()", ["bool"], _agg_ref("any"), nonnull, "missing items in all()/any() not documented"))
+        M.append(Method(cls, "z.count()", "v.count()", ["num"], wrap_(_agg_ref("count"))))
+        for nm in ("max", "mean", "median", "min", "nunique"):
+            M.append(Method(cls, "x.%s()" % nm, "v.%s()" % nm, ["num"], wrap_(_agg_ref(nm))))
+        M.append(Method(cls, "x.size()", "v.size()", ["num"], wrap_(_agg_ref("size"))))
+        M.append(Method(cls, "x.std()", "v.std()", ["num"], wrap_(_agg_ref("std"))))
+        M.append(Method(cls, "(1).sum()", "(1).sum()", [], wrap_(_agg_ref("one_sum"))))
+        M.append(Method(cls, "x.sum()", "v.sum()", ["num"], wrap_(_agg_ref("sum"))))
+        M.append(Method(cls, "x.var()", "v.var()", ["num"], wrap_(_agg_ref("var"))))
+    M.append(Method("e", "x.sum()", "v.sum()", ["num"], _const(_agg_ref("sum"))))  # whole-column sum on every row
+    M.append(Method("u", "_uniform()", "_uniform()", [], None, skip="_uniform() is random: no value to compare"))
+    M.append(Method("up", "x.any_value()", "v.any_value()", ["num"], _agg_ref("any_value")))
+    M.append(Method("w", "_row_number()", "_row_number()", [], _win("_row_number")))
+    M.append(Method("w", "z.bfill()", "v.bfill()", ["num"], _win("bfill")))
+    M.append(Method("w", "z.cumcount()", "v.cumcount()", ["num"], _win("cumcount")))
+    for nm in ("cummax", "cummin", "cumprod", "cumsum"):
+        M.append(Method("w", "x.%s()" % nm, "v.%s()" % nm, ["num"], _win(nm), nonnull, NOTE_NONNULL_GROUP))
+    M.append(Method("w", "z.ffill()", "v.ffill()", ["num"], _win("ffill")))
+    M.append(Method("w", "x.first()", "v.first()", ["num"], _win("first"), nonnull, "first/last: whether missing items are skipped is not documented; only groups without missing items"))
+    M.append(Method("w", "x.last()", "v.last()", ["num"], _win("last"), nonnull, "first/last: whether missing items are skipped is not documented; only groups without missing items"))
+    M.append(Method("w", "x.rank()", "v.rank()", ["num"], _win("rank"), lambda vals: nonnull(vals) and len(set(vals)) == len(vals), "rank of ties and of missing items not documented; only groups of distinct non-missing items"))
+    M.append(Method("w", "x.shift()", "v.shift()", ["num"], _win("shift", 1)))
+    return M
+
+
+def doc_meaning() -> Dict[str, Method]:
+    """(op_class|catalog expression) -> Method for every row of op_catalog.methods_table."""
+    out: Dict[str, Method] = {}
+    for m in _scalar_methods() + _group_methods():
+        if m.key in out:
+            raise ValueError("duplicate doc_meaning entry " + m.key)
+        out[m.key] = m
+    return out
